@@ -183,7 +183,13 @@ func readBufioSize(reader *bufio.Reader, size int64) ([]byte, error, bool) {
 	var err error
 	var n int
 	for read != size {
-		buf := make([]byte, size-read)
+		// a count far beyond the file means "the rest": read in pieces
+		// instead of allocating the count
+		chunk := size - read
+		if chunk > 1<<16 {
+			chunk = 1 << 16
+		}
+		buf := make([]byte, chunk)
 		n, err = reader.Read(buf)
 		if err != nil {
 			break
